@@ -143,6 +143,13 @@ Definition py_list_set {A} (l : list A) (i : bnd) (v : A) : res (list A) :=
   | None => Err EIndex
   end.
 
+(** [d[k] = v] on a dictionary built by the function: an existing key keeps its place, a new one goes to the end *)
+Fixpoint py_dict_set {K A} (eqb : K -> K -> bool) (d : list (K * A)) (k : K) (v : A) : list (K * A) :=
+  match d with
+  | [] => [(k, v)]
+  | (k', v') :: r => if eqb k k' then (k, v) :: r else (k', v') :: py_dict_set eqb r k v
+  end.
+
 (** [k in d] on a dict; [l[::step]] (step >= 1) *)
 Definition py_dict_has {K A} (eqb : K -> K -> bool) (d : list (K * A)) (k : K) : bool := existsb (fun kv => eqb k (fst kv)) d.
 Fixpoint py_every_fuel {A} (fuel stride : nat) (l : list A) : list A :=
